@@ -2,9 +2,10 @@
      safe_reader_eq        safe_reader is Tree.reader_of
      serve_total           ServeHTTP itself never panics: over ServerOps whose calls do not panic, every
                            path gets a response (HOk or HStatus)
-     SInv / serve_test_inv the TestServer invariant (hashes = store_of records; every entry of the lookup
-                           table points to the record gosum produced for it) holds initially and is
-                           kept by every request
+     HInv / SInv / serve_test_inv / reachable_inv
+                           the TestServer invariant (HInv: hashes = store_of records; SInv: HInv and every
+                           entry of the lookup table points to the record gosum produced for it) holds
+                           initially, is kept by every request, hence holds in every reachable state
      serve_tile_servable / serve_tile_honest
                            GET /<tile_path t> for a tile inside the current tree returns 200,
                            application/octet-stream, and exactly ReadTileData over the store = the honest
@@ -254,8 +255,14 @@ Definition entry_ok (recs : list str) (e : str * Z) : Prop :=
   exists p v data, fst e = p ++ 64 :: v /\ ~ In 64 p /\ gosum p v = OOk data /\
                    0 <= snd e /\ nth_error recs (Z.to_nat (snd e)) = Some data.
 
+(* the part that does not depend on gosum: the stored hashes are those of the records *)
+Definition HInv (st : tstate) : Prop := ts_hashes st = store_of (ts_records st).
+
 Definition SInv (st : tstate) : Prop :=
-  ts_hashes st = store_of (ts_records st) /\ Forall (entry_ok (ts_records st)) (ts_lookup st).
+  HInv st /\ Forall (entry_ok (ts_records st)) (ts_lookup st).
+
+Lemma SInv_HInv st : SInv st -> HInv st.
+Proof. intros [H _]. exact H. Qed.
 
 Lemma SInv_0 : SInv tstate0.
 Proof. split; [reflexivity | constructor]. Qed.
@@ -399,11 +406,11 @@ Proof.
 Qed.
 
 Theorem serve_tile_servable st h t :
-  SInv st -> zlen (ts_records st) < 2 ^ 62 -> 1 <= h <= 30 -> servable h (zlen (ts_records st)) t ->
+  HInv st -> zlen (ts_records st) < 2 ^ 62 -> 1 <= h <= 30 -> servable h (zlen (ts_records st)) t ->
   serve_test st (47 :: tile_path t) = (HOk COctet (honest_tile (range_hash (ts_records st)) t), st) /\
   read_tile_data t (reader_of (store_of (ts_records st))) = TOk (honest_tile (range_hash (ts_records st)) t).
 Proof.
-  intros [Hh _] Hlen Hhr Hs.
+  intros Hh Hlen Hhr Hs. unfold HInv in Hh.
   assert (Hv : valid_tile t) by (eapply servable_valid; eauto).
   destruct (store_of_inv leaf_hash node_hash (ts_records st) Hlen) as [Hst _].
   assert (Hrd : read_tile_data t (reader_of (store_of (ts_records st))) = TOk (honest_tile (range_hash (ts_records st)) t)).
@@ -419,7 +426,7 @@ Qed.
 (* the tiles a tile hash reader of the current tree asks for (NewTilesProofs.tree_tile): the server is
    the honest tile reader of TileProofsHonest / the publisher content of NewTilesProofsData *)
 Theorem serve_tile_honest st h t :
-  SInv st -> zlen (ts_records st) < 2 ^ 62 -> 1 <= h <= 30 -> tree_tile h (zlen (ts_records st)) t ->
+  HInv st -> zlen (ts_records st) < 2 ^ 62 -> 1 <= h <= 30 -> tree_tile h (zlen (ts_records st)) t ->
   serve_test st (47 :: tile_path t) = (HOk COctet (honest_tile (range_hash (ts_records st)) t), st) /\
   read_tile_data t (reader_of (store_of (ts_records st))) = TOk (honest_tile (range_hash (ts_records st)) t).
 Proof. intros HI Hlen Hh Ht. apply (serve_tile_servable st h t); auto. apply tree_tile_servable. exact Ht. Qed.
@@ -458,6 +465,39 @@ Proof.
   unfold serve_tile. rewrite Hp. destruct (Z.eqb_spec (tL t) (-1)); [lia|].
   cbn [op_read_tile_data Server.test_ops]. unfold test_read_tile_data.
   rewrite (read_tile_data_ext t _ (reader_of (ts_hashes st)) (safe_reader_eq _)), Hrd. reflexivity.
+Qed.
+
+(* ---------------------------------------------------------------- reachable states *)
+
+Inductive reachable : tstate -> Prop :=
+| reach_0 : reachable tstate0
+| reach_get st path : reachable st -> reachable (snd (serve_test st path)).
+
+Lemma test_lookup_records_mono st p v :
+  exists ext, ts_records (snd (test_lookup st p v)) = ts_records st ++ ext.
+Proof.
+  unfold Server.test_lookup. destruct (find_key _ _); [exists []; rewrite app_nil_r; reflexivity|].
+  destruct (gosum p v) as [data| | |]; try (exists []; rewrite app_nil_r; reflexivity).
+  destruct (stored_hashes_for_record_hash _ _ _ _); exists [data]; reflexivity.
+Qed.
+
+Lemma serve_records_mono st path :
+  exists ext, ts_records (snd (serve_test st path)) = ts_records st ++ ext.
+Proof.
+  unfold Server.serve_test.
+  destruct (serve_state test_ops st path) as [E|(m & i & p & v & _ & _ & _ & _ & _ & E)]; rewrite E.
+  - exists []. rewrite app_nil_r. reflexivity.
+  - apply test_lookup_records_mono.
+Qed.
+
+(* every state an honest TestServer reaches by serving requests satisfies the invariant *)
+Theorem reachable_inv st : reachable st -> zlen (ts_records st) + 1 < 2 ^ 62 -> SInv st.
+Proof.
+  induction 1 as [|st path Hr IH]; intros Hlen; [apply SInv_0|].
+  destruct (serve_records_mono st path) as [ext Eext].
+  assert (Hlen0 : zlen (ts_records st) + 1 < 2 ^ 62).
+  { rewrite Eext, zlen_app in Hlen. pose proof (zlen_nonneg ext). lia. }
+  apply serve_test_inv; auto.
 Qed.
 
 End TestInv.
